@@ -19,14 +19,14 @@ PAD_COUNTS = [61, 62, 63, 64, 125, 126, 127, 128, 190, 31, 32]
 
 
 def pad_terminals(g, cid):
-    """Every third case declares 31-190 extra terminals that no rule and no input uses, in front of, between or
+    """Two cases of three declare 31-190 extra terminals that no rule and no input uses, in front of, between or
     behind the real ones: the library's terminal sets (FIRST, FOLLOW, lookahead contexts) then span several
     machine words and the real terminals -- and `error' -- sit at different bit positions, next to word
     boundaries.  Nothing observable may change."""
-    if cid % 3 != 0:
+    if cid % 3 == 2:
         return g
     k = PAD_COUNTS[(cid // 3) % len(PAD_COUNTS)]
-    mode = (cid // 3) % 3
+    mode = (cid // 3) % 3 if cid % 3 == 0 else 1
     pads = [("zz%d" % i, 100000 + i) for i in range(k)]
     if mode == 0:
         terms = pads + list(g.terms)
